@@ -55,6 +55,9 @@ const (
 	stDone
 )
 
+// stallMaxSteps bounds a resumable stall (in steps of the other tasks).
+const stallMaxSteps = 30000
+
 type blockKind uint8
 
 const (
@@ -183,6 +186,7 @@ type Sim struct {
 	timers   []*simTimer
 	timerSeq uint64
 	pollSel  bool
+	stallSeq uint64 // Seq at which the current resumable stall began (0: none)
 	pend     []*pendSend // sends waiting for a simulated receiver
 	SimTime  int64 // total virtual time advanced
 
@@ -595,9 +599,18 @@ func (s *Sim) step(kind OpKind, addr uintptr, gosched bool) {
 			return
 		}
 	}
+	if s.stallSeq != 0 && s.Seq-s.stallSeq > stallMaxSteps {
+		// a resumable stall is long but finite: tasks that poll (with writes)
+		// while they wait for the victim never look like spinners
+		s.stallSeq = 0
+		s.resumeStalled()
+	}
 	if t.StallAt > 0 && t.Steps == t.StallAt {
 		s.StallsFired++
 		t.state = stStalled
+		if t.StallResume {
+			s.stallSeq = s.Seq
+		}
 		s.Decisions = append(s.Decisions, uint16(t.ID)|0x8000)
 		if s.EndEarly && s.requiredDone() {
 			s.finishRun(t)
@@ -1085,6 +1098,9 @@ func Park() {
 	t.lastStep = s.Seq
 	s.StallsFired++
 	t.state = stStalled
+	if t.StallResume {
+		s.stallSeq = s.Seq
+	}
 	if s.EndEarly && s.requiredDone() {
 		s.finishRun(t)
 		return
